@@ -113,7 +113,7 @@ def run_case(ck, case, reqs, pending):
                     ck.count("guesses_with_target_id_0")
     seen, final = ser.simulate_cm(s.coords0, n, case["cm"])
     use_guess = any(guess[t] for t in guess)
-    f = impl.quiet(fs.ForSys, frames, cm=case["cm"], **({"initial_guess": guess} if use_guess else {}))
+    f = impl.quiet(fs.ForSys, frames, cm=case["cm"], **({"initial_guess": {t_: dict(g_) for t_, g_ in guess.items()}} if use_guess else {}))     # a copy: the caller's pairings stay the reference
     mapping = f.mesh.mapping
     # sanity of the replayed centre-of-mass shifts
     for t in range(n):
